@@ -487,4 +487,6 @@ def _get_Hamiltonian_from_couplings(model, sparse: bool, undo_sort_charge: bool)
         if len(sites_since_last_op) > 0:
             t = kron(t, np.eye(np.prod([dims[n] for n in sites_since_last_op])))
         H = H + s * t
+    if model.explicit_plus_hc:
+        H = H + H.conj().T  # the terms only contain one half; the hermitian conjugate is implicit
     return H
